@@ -146,6 +146,8 @@ def verify_unit(unit, timeout_ms=10000):
             if r["status"] == "unknown":
                 rec["reason"] = r.get("reason")
             out["obligations"].append(rec)
+            if r["status"] != "unsat" and os.environ.get("PYVC_FAIL_FAST") == "1":
+                break  # mutation self-test: one undischarged obligation is enough to kill a mutant
         out["trusted"] = sorted(X.USED)
     except VerifError as ex:
         out["error"] = "VerifError: %s" % ex
